@@ -5,8 +5,8 @@ new helper function (`fn ensure_empty(p) -> Result<..>`, `fn release(&mut self, 
 where the property holds. When - and only when - a check is about to report violations, the property's rules are evaluated once more on
 a copy of the facts in which calls to *helpers the rules know nothing about* are spliced into their callers; the violations are reported
 only if they persist there. A helper is: a crate-local, synchronous, non-recursive fn or method with MIR of at most MAX_BLOCKS blocks whose
-simple name occurs nowhere in the rule sources and which did not exist in the pinned tree (known_functions.txt): every function the rules reason
-about by name, and every function the rules were confirmed against, is never inlined.
+path did not exist in the pinned tree (known_functions.txt): every function the rules reason about by name, and every function the rules were
+confirmed against, is therefore never inlined.
 
 The splice is a plain MIR inline on the JSON facts: callee locals, type indices and blocks are renumbered into the caller, parameters
 are assigned from the call's arguments, the return place is copied into the call's destination, `return` becomes a goto to the call's
@@ -58,7 +58,7 @@ def is_helper(facts, path, caller_path):
         return False
     if len(b.j["blocks"]) > MAX_BLOCKS:
         return False
-    if simple_name(path) in known_words() or path in known_functions():
+    if path in known_functions():
         return False
     # no yields, no self-recursion
     for blk in b.j["blocks"]:
@@ -78,6 +78,7 @@ class _Remap:
         self.caller = caller
         self.callee = callee
         self.tyix = {s: i for i, s in enumerate(caller["tys"])}
+        self.subst = {}
 
     def ty(self, i):
         if i is None:
@@ -97,6 +98,30 @@ class _Remap:
         return None if b is None else b + self.boff
 
     def place(self, p):
+        sub = self.subst.get(p[0]) if self.subst else None
+        if sub is not None:
+            kind, src = sub
+            if kind == "ref" and p[1] and p[1][0] == "*":
+                inner = self._proj(p[1][1:])
+                return [src[0], list(src[1]) + inner]
+            if kind == "val":
+                inner = self._proj(p[1])
+                return [src[0], list(src[1]) + inner]
+        return [self.local(p[0]), self._proj(p[1])]
+
+    def _proj(self, elems):
+        proj = []
+        for e in elems:
+            if isinstance(e, list):
+                e = list(e)
+                if e[0] == "f" and len(e) > 3:
+                    e[3] = self.ty(e[3])
+                elif e[0] == "i":
+                    e[1] = self.local(e[1])
+            proj.append(e)
+        return proj
+
+    def _place_old(self, p):
         proj = []
         for e in p[1]:
             if isinstance(e, list):
@@ -174,11 +199,77 @@ class _Remap:
         return t
 
 
+def _callee_is_pure(callee):
+    """no write through a reference and no call that receives a `&mut`: by-value arguments can then be replaced by the places they were read from"""
+    for blk in callee["blocks"]:
+        if blk["cleanup"]:
+            continue
+        for st in blk["st"]:
+            if st["k"] == "a" and any(e == "*" for e in st["l"][1]):
+                return False
+        t = blk["term"]
+        if t["k"] == "call":
+            for a in t["args"]:
+                if a[0] in ("c", "m"):
+                    ty = callee["tys"][callee["locals"][a[1][0]]["ty"]]
+                    if ty.startswith("&mut") or ty.startswith("*mut"):
+                        return False
+    return True
+
+
+def _param_is_stable(callee, l):
+    """the parameter local is never assigned, mutably borrowed or moved into a call as a whole"""
+    for blk in callee["blocks"]:
+        for st in blk["st"]:
+            if st["k"] == "a":
+                if st["l"][0] == l and not st["l"][1]:
+                    return False
+                r = st["r"]
+                if r["k"] in ("ref", "rawptr") and r["pl"][0] == l and not any(e == "*" for e in r["pl"][1]) and (r["k"] == "rawptr" or r.get("bk") == "mut"):
+                    return False
+        t = blk["term"]
+        if t["k"] == "call" and t.get("dest") and t["dest"][0] == l:
+            return False
+    return True
+
+
+def param_substitution(caller, call_block, callee):
+    """for parameters whose argument is a fresh reborrow / copy made in the call block: the caller place the parameter stands for.
+    {callee local: ("ref", place) -> `*param` is `place`; ("val", place) -> `param` is `place`}"""
+    call = caller["blocks"][call_block]["term"]
+    stmts = caller["blocks"][call_block]["st"]
+    pure = _callee_is_pure(callee)
+    out = {}
+    for i, a in enumerate(call["args"]):
+        p = i + 1
+        if p > callee["arg_count"] or a[0] not in ("c", "m") or a[1][1]:
+            continue
+        tl = a[1][0]
+        if not _param_is_stable(callee, p):
+            continue
+        d = None
+        for st in reversed(stmts):
+            if st["k"] == "a" and st["l"][0] == tl and not st["l"][1]:
+                d = st["r"]
+                break
+            if st["k"] == "a" and st["l"][0] == tl:
+                d = None
+                break
+        if d is None:
+            continue
+        if d["k"] == "ref":
+            out[p] = ("ref", d["pl"])
+        elif d["k"] == "use" and d["op"][0] in ("c", "m") and pure:
+            out[p] = ("val", d["op"][1])
+    return out
+
+
 def splice(caller, call_block, callee):
     """inline `callee` (body json) at the call terminating block `call_block` of `caller` (body json, modified in place)"""
     call = caller["blocks"][call_block]["term"]
     rm = _Remap(caller, callee)
     span = call.get("s", [0])
+    rm.subst = param_substitution(caller, call_block, callee)
     # locals
     for i, d in enumerate(callee["locals"]):
         d = dict(d)
